@@ -1,6 +1,7 @@
 import SkgVerif.Model.Basic
 import SkgVerif.Model.Grouping
 import SkgVerif.Model.Estimators
+import SkgVerif.Model.Binning
 /-!
 # Line protocol handlers (one request line → one response line)
 
@@ -71,6 +72,47 @@ def handleC01 : List String → Option String
       if dim = 0 then none else
       let n := flat.length / dim
       some s!"ok|{fmtList fmtRat ((pairs n).map fun p => sqDist dim flat p.1 p.2)}"
+  | _ => none
+
+
+def parseMaxlagReq (s : String) : Option MaxlagReq :=
+  match s.trimAscii.toString with
+  | "none" => some .none
+  | "median" => some .median
+  | "mean" => some .mean
+  | t => (parseRat t).map .num
+
+def parseOptRat (s : String) : Option (Option Rat) :=
+  match s.trimAscii.toString with
+  | "none" => some none
+  | t => (parseRat t).map some
+
+def handleC02 : List String → Option String
+  | ["resolve", req, d] => do
+      let r ← parseMaxlagReq req
+      let ds ← parseRats d
+      let m := resolveMaxlag r ds
+      some s!"ok|{fmtOptRat m}|{fmtRat (effMax m ds)}"
+  | ["effmax", m, d] => do
+      let m ← parseOptRat m
+      let ds ← parseRats d
+      some s!"ok|{fmtRat (effMax m ds)}"
+  | ["even", n, m] => do
+      let n ← n.trimAscii.toString.toNat?
+      let m ← parseRat m.trimAscii.toString
+      some s!"ok|{fmtList fmtRat (evenEdges n m)}"
+  | ["uniform", n, m, d] => do
+      let n ← n.trimAscii.toString.toNat?
+      let m ← parseRat m.trimAscii.toString
+      let ds ← parseRats d
+      some s!"ok|{fmtList fmtRat (uniformEdges n m ds)}"
+  | ["midpoints", c] => do
+      let cs ← parseRats c
+      some s!"ok|{fmtList fmtRat (midpointEdges 0 cs)}"
+  | ["quantile", q, d] => do
+      let q ← parseRat q.trimAscii.toString
+      let ds ← parseRats d
+      some s!"ok|{fmtRat (quantile ds q)}"
   | _ => none
 
 end Skg
